@@ -22,6 +22,8 @@ CONSTANTS ReplyMode,          \* "pinned" | "deferred"
           UserMsgs,           \* data messages A's user threads want to send during the exchange
           KexinitTakesLock,   \* TRUE: _send_kex_init clears clear_to_send under clear_to_send_lock (as the code does);
                               \* FALSE: it just clears the event (mutation): KEXINIT can overtake a user packet
+          FlushSkips,         \* mutation: the flush at NEWKEYS removes entries from the list it iterates over, so every second
+                              \* held-back reply stays queued
           UngatedUser         \* mutation: some user-level API (fire-and-forget global request, keepalive) writes its
                               \* packet without consulting clear_to_send; FALSE: every user-level send goes through the gate
 
@@ -87,6 +89,11 @@ AUserEmits ==
   /\ Emit("A", <<"plain">>) /\ nUser' = nUser + 1 /\ ctsLock' = "free"
   /\ UNCHANGED <<sentKexinit, gotKexinit, sentNewkeys, gotNewkeys, cts, blocked, dead, deferred, nIn, requests, replies>>
 
+\* what the flush at NEWKEYS sends / leaves behind
+Odd(q)  == [i \in 1..((Len(q) + 1) \div 2) |-> q[2 * i - 1]]
+Even(q) == [i \in 1..(Len(q) \div 2) |-> q[2 * i]]
+Flushed(q) == IF FlushSkips THEN Odd(q) ELSE q
+Kept(q)    == IF FlushSkips THEN Even(q) ELSE <<>>
 InExchange(e) == sentKexinit[e] /\ ~gotNewkeys[e]
 ExpectingKex(e) == gotKexinit[e] /\ ~gotNewkeys[e]      \* _expected_packet is a kex type
 
@@ -119,9 +126,9 @@ Handle(e) ==
        [] m = "NEWKEYS" ->          \* _parse_newkeys: clear_to_send.set(); flush what was held back
             /\ gotNewkeys' = [gotNewkeys EXCEPT ![e] = TRUE]
             /\ cts' = [cts EXCEPT ![e] = TRUE]
-            /\ wire' = [rest EXCEPT ![Peer(e)] = @ \o deferred[e]]
-            /\ out' = [out EXCEPT ![e] = @ \o deferred[e]]
-            /\ deferred' = [deferred EXCEPT ![e] = <<>>]
+            /\ wire' = [rest EXCEPT ![Peer(e)] = @ \o Flushed(deferred[e])]
+            /\ out' = [out EXCEPT ![e] = @ \o Flushed(deferred[e])]
+            /\ deferred' = [deferred EXCEPT ![e] = Kept(deferred[e])]
             /\ UNCHANGED <<sentKexinit, gotKexinit, sentNewkeys, blocked, dead, replies>>
        [] m = "reply" ->
             IF ExpectingKex(e)        \* "Expecting packet from (30,) got 99": the peer broke the quiet rule
